@@ -147,7 +147,7 @@ func topLevelList(s string) []string {
 
 func canon(c *harness.Ctx) {
 	sim := c.NewSim()
-	_ = sim
+	defer sim.Close() // no tasks, never Run
 	w := newWorld(c, sim, 0)
 	dt := &directTransport{w: w, handler: w.net.handler}
 	w.rc.Client.Transport = dt
